@@ -97,6 +97,42 @@ def make_variant(m: Dict, repo: str = REPO) -> Optional[str]:
         raise
 
 
+def seeded_variants(rule_ids: List[str]) -> List[Dict]:
+    """kept seeded changes (independent sub-agents, /verif/seeded) whose recorded detection involves one of the rules"""
+    out = []
+    root = os.path.join(R.VERIF, "seeded")
+    if not os.path.isdir(root):
+        return out
+    for sid in sorted(os.listdir(root)):
+        mp = os.path.join(root, sid, "meta.json")
+        pp = os.path.join(root, sid, "patch.diff")
+        if not (os.path.exists(mp) and os.path.exists(pp)):
+            continue
+        try:
+            meta = json.load(open(mp))
+        except Exception:
+            continue
+        rules = sorted({r for v in meta.get("detected_by", {}).values() if v.get("exit") == 1 for r in v.get("rules", [])})
+        if rules and set(rules) & set(rule_ids):
+            out.append({"id": "seed:" + sid, "kind": "breaking", "patch": pp, "rules": rules, "file": None, "old": None, "new": None})
+    return out
+
+
+def make_seed_variant(m: Dict, repo: str = REPO) -> Optional[str]:
+    import subprocess
+
+    tmp = tempfile.mkdtemp(prefix="sa_variant_")
+    for rel in library_files(repo):
+        dst = os.path.join(tmp, rel)
+        os.makedirs(os.path.dirname(dst), exist_ok=True)
+        shutil.copyfile(os.path.join(repo, rel), dst)
+    r = subprocess.run(["git", "apply", "--include=numba_scfg/*", m["patch"]], cwd=tmp, capture_output=True, text=True)
+    if r.returncode != 0:
+        shutil.rmtree(tmp, ignore_errors=True)
+        return None
+    return tmp
+
+
 def run_rules_on(repo: str, rule_ids: List[str]) -> Dict[str, object]:
     from .context import Ctx
     from .rules import RULES, load_all
@@ -139,7 +175,7 @@ def run_rules_on(repo: str, rule_ids: List[str]) -> Dict[str, object]:
 
 def _job(args) -> Dict[str, object]:
     m, rule_ids, repo = args
-    tmp = make_variant(m, repo)
+    tmp = make_seed_variant(m, repo) if m.get("patch") else make_variant(m, repo)
     if tmp is None:
         return {"id": m["id"], "skipped": True}
     try:
@@ -165,6 +201,9 @@ def evaluate(rule_ids: List[str], jobs: int = 16, only: Optional[Set[str]] = Non
         if m["kind"] == "breaking" and not (set(m["rules"]) & set(rule_ids)):
             continue
         todo.append((m, run_ids, REPO))
+    seeds = [] if only else seeded_variants(rule_ids)
+    for m in seeds:
+        todo.append((m, run_ids, REPO))
     results = []
     if jobs > 1 and len(todo) > 1:
         with ProcessPoolExecutor(max_workers=jobs) as ex:
@@ -172,6 +211,7 @@ def evaluate(rule_ids: List[str], jobs: int = 16, only: Optional[Set[str]] = Non
     else:
         results = [_job(t) for t in todo]
     by_id = {m["id"]: m for m in MUTANTS}
+    by_id.update({m["id"]: m for m in seeds})
     failures: List[str] = []
     table = []
     for r in results:
